@@ -124,6 +124,22 @@ class Interp:
         return d
 
     def e_JoinedStr(self, n, fr):
+        from . import models as _m
+        if _m.text_mode(self):
+            parts = []
+            for v in n.values:
+                if isinstance(v, ast.Constant):
+                    parts.append(v.value)
+                else:
+                    spec = self.eval(v.format_spec, fr) if v.format_spec is not None else None
+                    parts.append((self.eval(v.value, fr), spec, v.conversion))
+            r = _m.TEXT_HOOK.fstring(self, parts, n)
+            if r is not NotImplemented:
+                return r
+            out = ''
+            for p in parts:
+                out += p if isinstance(p, str) else (format(p[0], p[1] or '') if isinstance(p[0], (str, int)) and not isinstance(p[0], bool) and p[2] == -1 else '<?>')
+            return out
         out = ''
         for v in n.values:
             if isinstance(v, ast.Constant):
@@ -285,7 +301,9 @@ class Interp:
         if len(n.generators) == 1:
             src = self.eval(n.generators[0].iter, fr)
             if hasattr(src, 'comp_'):
-                return True, src.comp_(self, n, fr)
+                r = src.comp_(self, n, fr)
+                if r is not NotImplemented:
+                    return True, r
             self._comp_first = (n, src)          # evaluated once: _comp reuses it
         return False, None
 
@@ -638,6 +656,12 @@ class Interp:
             except IndexError:
                 self.raise_(IndexError, 'index out of range', node=node)
         if isinstance(base, dict):
+            if is_symint(idx) and all(isinstance(k, int) and not isinstance(k, bool) for k in base):
+                # a symbolic integer key of a concrete dictionary: one path per key, KeyError otherwise
+                for k in base:
+                    if self.run.branch(zint(idx) == k, f'dictkey=={k}'):
+                        return base[k]
+                self.raise_(KeyError, 'key', node=node)
             if is_sym(idx) or isinstance(idx, (View, SymObj)):
                 raise Unsupported('symbolic dict key')
             try:
